@@ -992,6 +992,10 @@ fn emit(ctx: &mut Ctx, o: &dyn Obj, route: &str, m: &Meas, bad: &[String]) {
 
 fn probe_dyn(ctx: &mut Ctx, make: fn() -> Box<dyn Obj>) {
     ctx.types += 1;
+    // announce the type and flush: if the crate (or a debug assertion of core, e.g. a write through a
+    // misaligned pointer) aborts the process, the checker can still name the payload type
+    writeln!(ctx.out, "type T={}", make().name()).unwrap();
+    ctx.out.flush().unwrap();
     for release in [Release::Drop, Release::Unwrap, Release::Cycle] {
         for weak in [WeakMode::None, WeakMode::WeakFirst, WeakMode::WeakLast] {
             let pat = ctx.next_pattern();
